@@ -20,11 +20,13 @@ var c08Faults = []c08Fault{
 	// static: decided by the text alone
 	{"abs()", "invalid-arity", true}, {"abs(a, b)", "invalid-arity", true}, {"length()", "invalid-arity", true}, {"join(a)", "invalid-arity", true}, {"sort_by(a)", "invalid-arity", true},
 	{"not_null()", "invalid-arity", true}, {"find_first(a)", "invalid-arity", true}, {"replace(a, b)", "invalid-arity", true}, {"find_last(a, b, c, d, e)", "invalid-arity", true},
+	{"sort_by(a, &b, c)", "invalid-arity", true}, {"map(&a, b, c)", "invalid-arity", true}, {"max_by(a, &b, &c)", "invalid-arity", true}, {"group_by(a, &b, `1`)", "invalid-arity", true}, {"min_by(a, &b, c, d)", "invalid-arity", true},
 	{"merge()", "invalid-arity", true}, {"trim(a, b, c)", "invalid-arity", true}, {"map(&a)", "invalid-arity", true}, {"zip()", "invalid-arity", true},
 	{"nosuch(a)", "unknown-function", true}, {"Abs(a)", "unknown-function", true}, {"nosuch()", "unknown-function", true}, {"to_str(a)", "unknown-function", true},
 	{"sort_by(a, b)", "invalid-type", true}, {"map(a, b)", "invalid-type", true}, {"max_by(a, a)", "invalid-type", true}, {"group_by(a, 'k')", "invalid-type", true},
 	{"a[::0]", "invalid-value", true}, {"[::0]", "invalid-value", true}, {"a[1:2:0]", "invalid-value", true},
 	// dynamic
+	{"contains(`1`, `1`)", "invalid-type", false}, {"contains(`{}`, 'a')", "invalid-type", false}, {"ends_with('a', `1`)", "invalid-type", false},
 	{"abs('x')", "invalid-type", false}, {"length(`1`)", "invalid-type", false}, {"join(`1`, `[]`)", "invalid-type", false}, {"sum(`[1,\"a\"]`)", "invalid-type", false}, {"keys(`[]`)", "invalid-type", false},
 	{"sort(`[1,\"a\"]`)", "invalid-type", false}, {"merge(`1`)", "invalid-type", false}, {"max_by(`[{\"a\":[]}]`, &a)", "invalid-type", false}, {"starts_with(`1`, 'a')", "invalid-type", false},
 	{"pad_left('a', `-1`)", "invalid-value", false}, {"pad_left('a', `1.5`)", "invalid-value", false}, {"from_items(`[[\"a\"]]`)", "invalid-value", false}, {"from_items(`[[null, 1]]`)", "invalid-value", false}, {"from_items(`[[[1], 1]]`)", "invalid-value", false},
@@ -215,6 +217,7 @@ func c08RunFaults(r *core.Run) {
 
 // c08RunValid: a compiled Expression never reports a static category, over the valid spaces of the other checks.
 func c08RunValid(r *core.Run) {
+	core.EnableTicks(c02TickBudget)
 	all := c01Docs(false)
 	var docs []doc
 	for i := 0; i < len(all); i += 60 {
@@ -234,7 +237,7 @@ func c08RunValid(r *core.Run) {
 		k := 0
 		c02Calls(name, false, func(c c02Call) {
 			k++
-			if k%17 == 0 && c.Doc == "null" {
+			if k%17 == 0 && c.Doc == "null" && !(strings.HasPrefix(name, "pad_") && strings.Contains(c.Expr, "9223372036854775807")) {
 				exprs = append(exprs, c.Expr)
 			}
 		})
